@@ -63,7 +63,9 @@ def strategy(tier, shard):
                    eps=float(sc * 10.0 ** draw(st.sampled_from([-4, -3, -2, -1, -1, 0, 0, 1]))),
                    mbs=draw(st.one_of(st.integers(1, nS + 2), st.integers(1, max(1, nS // 2)))))
         limit = draw(st.one_of(st.integers(1, period), st.sampled_from([60, 150, 400]), st.sampled_from([60, 150, 400]), st.sampled_from([period + 1, 2 * period + 3, 400])))
-        return dict(spec=spec, cfg=cfg, limit=limit)
+        # the limit may be reached in two calls (the second call must re-extract the policy, keep the history, ...)
+        split = draw(st.one_of(st.none(), st.integers(1, max(1, limit - 1)))) if limit >= 2 else None
+        return dict(spec=spec, cfg=cfg, limit=limit, split=split)
 
     return cases()
 
@@ -79,7 +81,12 @@ def judge(case):
     try:
         problem = sut.make_problem(spec)
         solver = sut.make_solver(problem, cfg)
-        st = solver.solve(limit)
+        split = case.get("split")
+        if split:
+            st = solver.solve(int(split))
+            classes.append("two-calls")
+        else:
+            st = solver.solve(limit)
     except Exception as e:
         return verdict_fail(sut_bucket(e), f"raised {e!r}", classes=classes)
     it = int(st.info.iteration)
@@ -109,6 +116,19 @@ def judge(case):
             break
     if borderline:
         return verdict_ok(nontrivial=False, classes=classes + ["borderline"])
+    if case.get("split"):
+        k1 = int(case["split"])
+        if n_stop is not None and n_stop <= k1:
+            # the first call ends by convergence: judged as a single call with limit k1
+            limit = k1
+        else:
+            try:
+                st = solver.solve(limit - k1)
+            except Exception as e:
+                return verdict_fail(sut_bucket(e), f"second call solve({limit - k1}) raised {e!r}", classes=classes)
+            it = int(st.info.iteration)
+            vals = np.asarray(st.values, dtype=np.float64)
+            classes.append("second-call-judged")
     expect = n_stop if n_stop is not None else limit
     if it < min(p, limit):
         return verdict_fail("stopped-before-a-full-period", f"period {p}, solve({limit}) stopped at iteration {it}", classes=classes)
